@@ -32,6 +32,9 @@ func resultType(sig *types.Signature) types.Type {
 
 func (tr *FnTrans) callWith(c *ssa.CallCommon, site ssa.Instruction, pos token.Pos, args []Val) Val {
 	vc := tr.vc
+	prevCall := tr.curCall
+	tr.curCall = c
+	defer func() { tr.curCall = prevCall }()
 	if c.IsInvoke() {
 		tr.atCall(c.Method.Name())
 	} else if callee := c.StaticCallee(); callee != nil {
@@ -242,6 +245,86 @@ func (tr *FnTrans) applyContractEnv(fc *FuncContract, name string, sig *types.Si
 		tr.vc.oblig(fmt.Sprintf("%s#pre:%s.%s:%d", tr.name, name, c.Label, ord), "pre",
 			sImp(tr.curReach, ec.evalBool(c.E)), fmt.Sprintf("precondition of %s at %s: %s", name, tr.posStr(pos), c.Text))
 	}
+	// callback rule: closures passed for parameters the callee declares as
+	// callbacks (`calls p`) may run any number of times during the call; their
+	// declared invariants (`preserves`) hold before, and therefore after
+	type cbInfo struct {
+		kfc  *FuncContract
+		kenv map[string]Val
+		name string
+	}
+	var cbs []cbInfo
+	if len(fc.Calls) > 0 && tr.curCall != nil && !tr.scan {
+		off := 0
+		if hasRecv {
+			off = 1
+		}
+		for j, p := range fc.Params {
+			isCb := false
+			for _, cn := range fc.Calls {
+				if cn == p.Name {
+					isCb = true
+				}
+			}
+			argIdx := j
+			if tr.curCall.IsInvoke() {
+				argIdx = j // Args excludes the receiver for invokes
+			} else if off == 1 {
+				argIdx = j + 1
+			}
+			if !isCb || argIdx >= len(tr.curCall.Args) {
+				continue
+			}
+			av := tr.curCall.Args[argIdx]
+			for {
+				if ct, ok := av.(*ssa.ChangeType); ok {
+					av = ct.X
+					continue
+				}
+				break
+			}
+			if prm, isParam := av.(*ssa.Parameter); isParam && tr.fc != nil {
+				// our own callback parameter handed on: the callee may invoke
+				// it; its effect is that of the callback type (havoc of the
+				// heap, ghost state kept)
+				own := false
+				for k, fp := range tr.fn.Params {
+					if fp == prm {
+						pn := fp.Name()
+						_ = k
+						for _, cn := range tr.fc.Calls {
+							if cn == pn {
+								own = true
+							}
+						}
+					}
+				}
+				if own {
+					cbs = append(cbs, cbInfo{&FuncContract{ModHeap: true}, nil, "(callback parameter " + prm.Name() + ")"})
+					continue
+				}
+			}
+			mc, ok := av.(*ssa.MakeClosure)
+			if !ok {
+				panic(vcErrorf("callback argument %s of %s is not a closure created in this function", p.Name, name))
+			}
+			kfn := mc.Fn.(*ssa.Function)
+			kfc := tr.w.contractFor(kfn)
+			if kfc == nil {
+				panic(vcErrorf("closure %s passed as callback has no contract", relName(kfn)))
+			}
+			kenv := map[string]Val{}
+			for i, fv := range kfn.FreeVars {
+				kenv[fv.Name()] = tr.val(mc.Bindings[i])
+			}
+			cbs = append(cbs, cbInfo{kfc, kenv, relName(kfn)})
+			kec := &evalCtx{vc: vc, env: kenv, heap: pre, old: pre, pkg: tr.pkg, entryAlloc: allocBefore}
+			for _, c := range kfc.Preserves {
+				tr.vc.oblig(fmt.Sprintf("%s#callback-inv:%s.%s:%d", tr.name, relName(kfn), c.Label, ord), "callback-inv",
+					sImp(tr.curReach, kec.evalBool(c.E)), fmt.Sprintf("invariant of callback %s holds before the call of %s: %s", relName(kfn), name, c.Text))
+			}
+		}
+	}
 	// effects
 	if fc.ModAll {
 		tr.havocAll()
@@ -275,6 +358,39 @@ func (tr *FnTrans) applyContractEnv(fc *FuncContract, name string, sig *types.Si
 		}
 		tr.applyMods(targets)
 		tr.bumpAlloc()
+	}
+	// effects of the callbacks (any number of invocations): their modifies
+	// sets are havoced, their invariants hold afterwards
+	for _, cb := range cbs {
+		if cb.kfc.ModAll {
+			tr.havocAll()
+		} else if cb.kfc.ModHeap {
+			ghosts := map[string]string{}
+			for c := range vc.compSort {
+				if strings.HasPrefix(c, "G$") {
+					ghosts[c] = vc.hget(tr.cur, c)
+				}
+			}
+			tr.havocAll()
+			for c, v := range ghosts {
+				tr.cur.m[c] = v
+			}
+		} else {
+			kec := &evalCtx{vc: vc, env: cb.kenv, heap: pre, old: pre, pkg: tr.pkg, entryAlloc: allocBefore}
+			var kt []modTarget
+			for _, m := range cb.kfc.Modifies {
+				kt = append(kt, tr.modTargets(kec, m)...)
+			}
+			tr.applyMods(kt)
+			tr.bumpAlloc()
+		}
+	}
+	for _, cb := range cbs {
+		kec := &evalCtx{vc: vc, env: cb.kenv, heap: tr.cur, old: pre, pkg: tr.pkg, entryAlloc: allocBefore}
+		for _, c := range cb.kfc.Preserves {
+			tr.fact(kec.evalBool(c.E))
+		}
+		vc.assume("callback rule: a closure passed as callback preserves its declared invariants over any number of invocations (each invocation is verified against them)")
 	}
 	// results
 	rt := resultType(sig)
@@ -394,12 +510,24 @@ func (tr *FnTrans) copyRange(et types.Type, from *Heap, dstArr, dstOff, srcArr, 
 	}
 	tr.fact(fmt.Sprintf("(forall ((j Int)) (! (=> (and (<= %s j) (< j (+ %s %s))) (= (select %s j) (select (select %s %s) (+ (- j %s) %s)))) :pattern ((select %s j))))",
 		dstOff, dstOff, n, inner, old, srcArr, dstOff, srcOff, inner))
+	// ground instance for the first copied element (gives E-matching a term
+	// for the element an append just wrote)
+	tr.fact(sImp(sLe("1", n), sEq(sSel(inner, dstOff), sSel(sSel(old, srcArr), srcOff))))
 	if keepFromArr != "" {
-		tr.fact(fmt.Sprintf("(forall ((j Int)) (! (=> (not (and (<= %s j) (< j (+ %s %s)))) (= (select %s j) (select (select %s %s) j))) :pattern ((select %s j))))",
-			dstOff, dstOff, n, inner, cur, keepFromArr, inner))
+		pats := fmt.Sprintf(":pattern ((select %s j))", inner)
+		if tr.fc != nil && tr.fc.ForwardFrames {
+			// also instantiate from reads of the old array (needed to carry
+			// existential witnesses across the update)
+			pats += fmt.Sprintf(" :pattern ((select (select %s %s) j))", cur, keepFromArr)
+		}
+		tr.fact(fmt.Sprintf("(forall ((j Int)) (! (=> (not (and (<= %s j) (< j (+ %s %s)))) (= (select %s j) (select (select %s %s) j))) %s))",
+			dstOff, dstOff, n, inner, cur, keepFromArr, pats))
 	}
 	nw := vc.fresh(comp+"@cp", vc.compSort[comp])
 	vc.fact(sEq(nw, sSto(cur, dstArr, inner)), "")
+	if tr.fc != nil && tr.fc.ForwardFrames {
+		vc.fact(sEq(sSel(nw, dstArr), inner), "")
+	}
 	tr.cur.m[comp] = nw
 }
 
